@@ -137,6 +137,38 @@ def sat3(rng, n, ratio=4.1):
     return "\n".join(out) + "\n"
 
 
+def xor_chain(rng, n, sat):
+    """x1 xor x2 xor ... xor xn = parity, as a chain of fresh Booleans t_i = t_{i-1} xor x_i (CNF), plus units
+    fixing every x_i; unsatisfiable when the forced parity is the wrong one.  Every t_i is a variable the
+    SatELite-style preprocessor likes to eliminate."""
+    out = ["(set-logic QF_UF)"] + ["(declare-fun x%d () Bool)" % i for i in range(n)] + ["(declare-fun t%d () Bool)" % i for i in range(n)]
+    vals = [rng.random() < 0.5 for _ in range(n)]
+    out.append("(assert (= t0 x0))")
+    for i in range(1, n):
+        a, b, c = "t%d" % (i - 1), "x%d" % i, "t%d" % i
+        for cl in ("(or (not %s) (not %s) (not %s))" % (a, b, c), "(or %s %s (not %s))" % (a, b, c),
+                   "(or %s (not %s) %s)" % (a, b, c), "(or (not %s) %s %s)" % (a, b, c)):
+            out.append("(assert %s)" % cl)
+    free = set(rng.sample(range(n), min(2, n)))        # two inputs stay open: search is needed
+    for i in range(n):
+        if i not in free:
+            out.append("(assert %s)" % ("x%d" % i if vals[i] else "(not x%d)" % i))
+    par = sum(vals) % 2 == 1
+    if sat:
+        out.append("(assert (or t%d (not t%d)))" % (n - 1, n - 1))
+    else:                                              # force both parities through the two open inputs
+        a, b = sorted(free) if len(free) == 2 else (0, 0)
+        out.append("(assert (= x%d x%d))" % (a, b))
+        fixed_par = sum(vals[i] for i in range(n) if i not in free) % 2 == 1
+        out.append("(assert %s)" % ("(not t%d)" % (n - 1) if fixed_par else "t%d" % (n - 1)))
+    return "\n".join(out) + "\n"
+
+
+def with_options(text, opts):
+    """prefix `(set-option k v)` lines (they must precede set-logic)"""
+    return "".join("(set-option %s %s)\n" % kv for kv in opts) + text
+
+
 def trivial(rng):
     k = rng.randint(0, 3)
     if k == 0:
